@@ -742,6 +742,18 @@ Definition file_of (r : resource) : string :=
 Definition files_ok (ob : obs) (files : list string) : bool :=
   eqb_of (list_eq_dec string_dec) (ssort (map file_of (ob_res ob))) (ssort files).
 
+(* the same against the specification: the files must be those of the resources that the object set the history
+   determines makes active (the model state; its hosts are proved to be the least claimants), not merely those of
+   the resources the implementation believes it serves *)
+Fixpoint files_spec_run (c : cfg) (s : state) (es : list event) (cs : list ctl) (i : Z) : Z :=
+  match es, cs with
+  | e :: er, ct :: cr =>
+      let s' := step_state c s e in
+      if eqb_of (list_eq_dec string_dec) (ssort (map (fun kv => file_of (snd kv)) (get_resources s'))) (ssort (ct_files ct))
+      then files_spec_run c s' er cr (i + 1) else i
+  | _, _ => 0
+  end.
+
 (* the TLS passthrough host map routes exactly the hosts of the TLS passthrough TransportServers being served,
    each to the socket of its TransportServer *)
 Definition pt_expected (ob : obs) : list (string * string) :=
@@ -829,4 +841,4 @@ Definition ctl_case (id : Z) (c : cfg) (es : list event) (os : list obs) (final 
            (alts : list (list event * obs)) (cs : list ctl) (lw : list string) (pw : list (string * string)) : list Z :=
   let '(dx, ds, dc, df, (dd, dk)) := ctl_run c objs0 [] [] es os cs 1 (0, 0, 0, 0, (0, 0)) in
   [id; dx; ds; dc; df; Z.of_nat (List.length es); dd; dk; leader_foreign es lw pw; files_run cs 1; pt_run cs 1;
-   fst (status_run c objs0 [] [] es cs 1); snd (status_run c objs0 [] [] es cs 1)].
+   fst (status_run c objs0 [] [] es cs 1); snd (status_run c objs0 [] [] es cs 1); files_spec_run c init es cs 1].
